@@ -24,9 +24,9 @@ type pItem struct {
 }
 
 type printRun struct {
-	items   []pItem
-	nilDer  []string // children printed without a nil guard that the parse path left unset
-	issues  []string
+	items  []pItem
+	nilDer []string // children printed without a nil guard that the parse path left unset
+	issues []string
 }
 
 // runPrinter walks printer tree `root` for the abstract node of parser path gp.
@@ -277,13 +277,13 @@ func renderTerms(t *tables, ts []pTerm) string {
 }
 
 type matchResult struct {
-	orderProblems   []string // R1.1
-	uncheckedTerms  []string // R12.1
-	openClass       []string // information: open-class tokens consumed without a test
-	nilDeref        []string // R11.3
-	issues          []string // unresolved
-	parserSeq       string
-	printerSeq      string
+	orderProblems  []string // R1.1
+	uncheckedTerms []string // R12.1
+	openClass      []string // information: open-class tokens consumed without a test
+	nilDeref       []string // R11.3
+	issues         []string // unresolved
+	parserSeq      string
+	printerSeq     string
 }
 
 // matchPath compares one parser path with the printer's output for the node that path builds.
